@@ -58,6 +58,8 @@ THEOREMS = [
     "IwModel.C01.spec_db_frame",
     "IwModel.C01.api_db_frame",
 ]
+# C functions this check's models mirror (source-text fingerprints are recorded in the evidence, see translate/funchash.py)
+MODELLED_FUNCS = {'src/kv/iwkv.c': ['_to_effective_key', '_unpack_effective_key', '_lx_find_bounds', '_lx_roll_forward', '_lx_addkv', '_lx_split_addkv', '_lx_put_lw', '_lx_get_lr', '_lx_del_lw', '_lx_del_sblk_lw', '_sblk_find_pi_mm', '_sblk_genlevel', 'iwkv_puth', 'iwkv_get', 'iwkv_get_copy', 'iwkv_del', 'iwkv_db_set_meta', 'iwkv_db_get_meta', 'iwkv_db']}
 MANIFEST = dict(
     level="proof",
     text=("Lean 4 refinement theorems: the node-level model of iwkv (routing, add-to-upper, split at slot 17, node removal) "
